@@ -427,6 +427,10 @@ func c04Run(w *W) {
 				continue
 			}
 			rb := "re:" + q.tag
+			if arg >= 12 {
+				rb = "" // an empty answer is an answer
+				w.Probe("empty-reply")
+			}
 			if b.reply(q, rb) {
 				w.Op("peer answers %s", q.tag)
 				q.replied = rb
@@ -553,5 +557,5 @@ func (b *reqBench) checkRecvs() {
 }
 
 func init() {
-	register(&Scenario{Name: "req-retry", Prop: "C04", Horizon: 6 * time.Hour, Run: c04Run})
+	register(&Scenario{Name: "req-retry", Prop: "C04", Horizon: 6 * time.Hour, Weight: 30, Run: c04Run})
 }
